@@ -60,7 +60,7 @@ def gen_spec(rng):
                 "steps": rng.randrange(2, 7), "dkmax": _pick(rng, [None, 2]),
                 "alpha": _pick(rng, [0.1, 0.3]),
                 "temperature": _pick(rng, [0.0, 0.8]),
-                "epsrel": _pick(rng, [1e-5, 1e-8]),
+                "epsrel": _pick(rng, [1e-9, 1e-11]),
                 "unique": rng.random() < 0.25}
     return spec
 
@@ -451,7 +451,10 @@ def run_case(case, dec):
             mem = _ptt(spec, None)
             fpt = _ptt(spec, fname)
             stats["ptt_file"] += 1
-            tol = max(1e-9, 100 * spec["epsrel"])
+            # two PT-TEMPO runs (file-backed, in memory) can differ by
+            # ~100 x epsrel when a singular value sits on the threshold;
+            # epsrel is 1e-9 or smaller here
+            tol = 1e-6
             # the file-backed object itself, before closing
             e_live = Entry(fpt, None, mem, "ptt_file:live", tol)
             _compare_ptt(e_live, mem, viol)
